@@ -2,6 +2,7 @@
 From Coq Require Import List Arith NArith ZArith.
 Require Import CU.model.Prim CU.model.Types CU.model.Unicode CU.model.Codec CU.model.Dates CU.model.Card CU.model.Iso CU.spec.IsoSpec.
 Require Import CU.proofs.IsoFraming.
+Require CU.gen.GenConfig.
 Import ListNotations.
 
 (* header split of an accepted message *)
@@ -63,3 +64,16 @@ Theorem C08_complete : forall cfg cd hexbm b bm frames,
   exists d, loads cfg cd hexbm b = Ok d.
 Proof. exact c08_complete. Qed.
 Print Assumptions C08_complete.
+
+(* non-vacuity: the documented example message is accepted (so C08_sound speaks about something), and its frame is the
+   whole data: bit 2, offset 0, prefix 2, declared length 16 *)
+Example C08_example :
+  match codec_named [108;97;116;105;110;95;49]%N with
+  | Some cd =>
+    let b := map byte_of_N ([49;49;52;52] ++ [192] ++ repeat 0%N 15 ++ [49;54; 52;52;52;52;53;53;53;53;54;54;54;54;55;55;55;55])%N in
+    loads CU.gen.GenConfig.packaged_bit_config cd false b
+      = Ok [(KMTI, VStr [49;49;52;52]%N); (KDE 2, VStr [52;52;52;52;53;53;53;53;54;54;54;54;55;55;55;55]%N)]
+    /\ tiles [mkfr 2 0 2 16] 0 (length (skipn 20 b))
+  | None => False
+  end.
+Proof. vm_compute. auto. Qed.
